@@ -489,6 +489,17 @@ def run(ctx):
             cases.append((eval_key_case, {'curve': curve, 'secret': e.to_bytes(32, 'big'), 'seed': rng.getrandbits(48), 'passphrases': 1,
                                           'pw': [random_passphrase(rng)], 'salts': [None]}))
             ctx.count('key_boundary', f'{curve}:short-X' if e in exps else f'{curve}:small-exponent')
+    # the ends of the scalar range: 1, 2, n-2, n-1 (n = group order), 2^255 / 2^128 for the two ECDSA curves and BLS12-381; the all-zero
+    # and all-ones seeds for Ed25519 (every 32-byte string is a legal Ed25519 seed)
+    N_SP = 0xFFFFFFFFFFFFFFFFFFFFFFFFFFFFFFFEBAAEDCE6AF48A03BBFD25E8CD0364141
+    N_P2 = 0xFFFFFFFF00000000FFFFFFFFFFFFFFFFBCE6FAADA7179E84F3B9CAC2FC632551
+    N_BL = 0x73EDA753299D7D483339D80809A1D80553BDA402FFFE5BFEFFFFFFFF00000001
+    ends = [('sp', e) for e in (1, 2, N_SP - 2, N_SP - 1, 1 << 255, 1 << 128)] + [('p2', e) for e in (1, 2, N_P2 - 2, N_P2 - 1, 1 << 255, 1 << 128)] \
+        + [('BL', e) for e in ((1, N_BL - 1) if quick else (1, 2, N_BL - 2, N_BL - 1))] + [('ed', 0), ('ed', (1 << 256) - 1)]
+    for curve, e in ends:
+        cases.append((eval_key_case, {'curve': curve, 'secret': e.to_bytes(32, 'big'), 'seed': rng.getrandbits(48), 'passphrases': 1,
+                                      'pw': [random_passphrase(rng)], 'salts': [None]}))
+        ctx.count('key_boundary', f'{curve}:range-end')
     # ---------------- mnemonics
     from mnemonic import Mnemonic
     m = Mnemonic('english')
@@ -526,6 +537,11 @@ def run(ctx):
             words = valid_mnemonic(n) if valid else [rng.choice(wl) for _ in range(n)]
             cases.append((eval_mnemonic_case, {'kind': 'derive', 'words': words, 'curve': curve, 'validate': rng.random() < 0.8, 'as_list': rng.random() < 0.5,
                                                'pw': rng.choice(['', 'pass', 'Tr3zor!', 'pässwörd', 'x' * 40]), 'email': rng.choice(['', 'a@b.c', 'firstname.lastname@example.org'])}))
+    # corpus: the recorded open finding (BLS derivation from a mnemonic whose seed prefix is not below the group order) and a
+    # neighbour that derives — first in every tier, so that the KNOWN-FINDING line does not depend on the seed
+    for words in ('abandon abandon abandon abandon abandon abandon abandon abandon abandon abandon abandon about',
+                  'acoustic avoid letter advice cage absurd amount doctor acoustic avoid letter affair'):
+        cases.append((eval_mnemonic_case, {'kind': 'derive', 'words': words.split(' '), 'curve': 'BL', 'validate': True, 'as_list': False, 'pw': '', 'email': ''}))
     workers = int(os.environ.get('VERIF_WORKERS', '8'))
     order = sorted(range(len(cases)), key=lambda i: not (cases[i][1].get('curve') == 'BL' or cases[i][1].get('kind') == 'sweep'))
     t0 = time.time()
